@@ -158,6 +158,18 @@ class ReusedEnv:
             M.count("reuse.perturbing_parses")
 
     def parse(self, text, M, stop=False):
+        import copy
         self.perturb(M)
         M.count("parses_on_reused_objects")
-        return observe.parse_observed(text, stop=stop, parser=self.parser, matcher=self.matcher, idgen=self.idgen)
+        o = observe.parse_observed(text, stop=stop, parser=self.parser, matcher=self.matcher, idgen=self.idgen)
+        # a document that was returned earlier must not be changed by later parses on the same objects
+        prev = getattr(self, "_held", None)
+        if prev is not None:
+            M.count("returned_documents_rechecked")
+            if prev[0] != prev[1]:
+                from ..docmodel import diff
+                M.violation("G15", {"what": "a document returned by an earlier parse was modified by later parses on the same Parser/AstBuilder",
+                                    "differences": short(diff(prev[1], prev[0])[:3], 300), "earlier_source": short(prev[2], 200)},
+                            {"kind": "shard", "spec": getattr(self, "spec", None), "text": prev[2]})
+        self._held = (o.ast, copy.deepcopy(o.ast), text) if o.status == "ok" else None
+        return o
